@@ -38,6 +38,7 @@ ELEMENT_METHODS = {'get', 'values', 'items', 'pop', 'popitem', 'setdefault', '__
 INPLACE_NP_FUNCS = {'np.random.shuffle': 0, 'np.put': 0, 'np.copyto': 0, 'np.place': 0, 'np.putmask': 0,
                     'np.fill_diagonal': 0, 'numpy.random.shuffle': 0, 'random.shuffle': 0, 'setattr': 0, 'delattr': 0,
                     'np.put_along_axis': 0, 'np.ndarray.__setitem__': 0, 'np.ndarray.sort': 0, 'np.ndarray.fill': 0}
+OVERWRITE_KWARGS = ('overwrite_input', 'overwrite_a', 'overwrite_b', 'overwrite_x', 'overwrite_data', 'inplace')
 ALIAS_FUNCS = {'np.asarray', 'np.asanyarray', 'np.ascontiguousarray', 'np.atleast_1d', 'np.atleast_2d', 'np.squeeze', 'np.ravel',
                'np.reshape', 'np.transpose', 'np.broadcast_to', 'np.expand_dims', 'np.swapaxes', 'np.moveaxis', 'np.flipud',
                'np.fliplr', 'np.flip', 'np.ma.masked_where', 'np.ma.masked_array', 'np.ma.array', 'np.require', 'np.diagonal',
@@ -865,6 +866,16 @@ class Analyzer(object):
         # out= keyword of array functions
         if 'out' in kws and not (kws['out'].kind <= {SCALAR}):
             self.effect(e, kws['out'], 'buf', 'out= argument of `%s`' % norm_stmt(e))
+        # keywords by which library functions are allowed to destroy / reuse their input
+        for kw_ in OVERWRITE_KWARGS:
+            k_node = [k for k in e.keywords if k.arg == kw_]
+            if k_node and not (isinstance(k_node[0].value, ast.Constant) and k_node[0].value.value in (False, None)) and args:
+                self.effect(e, args[0], 'any', '`%s=` of `%s` lets the library overwrite its input' % (kw_, norm_stmt(e)))
+        # np.array(x, copy=False) / x.astype(t, copy=False): may return the input itself
+        copy_false = any(k.arg == 'copy' and isinstance(k.value, ast.Constant) and k.value.value is False for k in e.keywords)
+        if copy_false and canon in ('np.array',) and args:
+            a = args[0]
+            return AV([ARRAY], FS, a.buf | (a.inner if CONT in a.kind else frozenset()), FS)
         if canon in INPLACE_NP_FUNCS and args:
             self.effect(e, args[INPLACE_NP_FUNCS[canon]], 'any', 'in-place library call `%s`' % norm_stmt(e))
             return SCAL
